@@ -472,6 +472,10 @@ type extObs struct {
 	rlog, slog []hrec
 	sigma      []byte
 	errR, errS string
+	// with the verif hooks of /repo (export_verif.go), nil otherwise: the Fiat-Shamir challenge the sender derives
+	// for r1.U, and the parties' own seed expansion
+	chi    [][16]byte
+	expand func(n, idx int, seed []byte, choice int) []byte
 }
 
 func extHonest(d desc, sd seeds, xi, L int, x []byte, mk func() map[sharing.ID]*session.Context) extObs {
@@ -496,6 +500,17 @@ func extHonest(d desc, sd seeds, xi, L int, x []byte, mk func() map[sharing.ID]*
 		if err != nil {
 			o.errR = "round1"
 		}
+		if h, ok := any(recv).(interface {
+			VerifExpand(outputLen, idx int, message []byte, choice int) ([]byte, error)
+		}); ok {
+			o.expand = func(n, idx int, seed []byte, choice int) []byte {
+				b, err := h.VerifExpand(n, idx, seed, choice)
+				if err != nil {
+					return make([]byte, n)
+				}
+				return b
+			}
+		}
 	}); p != "" {
 		o.errR = "panic"
 	}
@@ -510,6 +525,13 @@ func extHonest(d desc, sd seeds, xi, L int, x []byte, mk func() map[sharing.ID]*
 		if err != nil {
 			o.errS = "new"
 			return
+		}
+		if h, ok := any(snd).(interface {
+			VerifChallenge(u *[softspoken.Kappa][]byte, m int) (softspoken.Challenge, error)
+		}); ok {
+			if c, err := h.VerifChallenge(&copyR1(o.r1).U, xi*L/softspoken.Sigma); err == nil {
+				o.chi = c
+			}
 		}
 		o.sout, err = snd.Round2(copyR1(o.r1))
 		if err != nil {
@@ -685,8 +707,12 @@ func runExt(d desc) outcome {
 	t0 := make([][]byte, softspoken.Kappa)
 	t1 := make([][]byte, softspoken.Kappa)
 	for i := range t0 {
-		t0[i] = expandPRG(ob.sid, nb, i, sd.m0[i], 0)
-		t1[i] = expandPRG(ob.sid, nb, i, sd.m1[i], 1)
+		if ob.expand != nil {
+			t0[i], t1[i] = ob.expand(nb, i, sd.m0[i], 0), ob.expand(nb, i, sd.m1[i], 1)
+		} else {
+			t0[i] = expandPRG(ob.sid, nb, i, sd.m0[i], 0)
+			t1[i] = expandPRG(ob.sid, nb, i, sd.m1[i], 1)
+		}
 	}
 	xp := append(repeatBits(x, L), ob.sigma...)
 	prgOK := len(ob.sigma) == 16
@@ -728,7 +754,14 @@ func runExt(d desc) outcome {
 	m := eta / 128
 	blockOf := func(row []byte, k int) *big.Int { return new(big.Int).SetBytes(row[k*16 : (k+1)*16]) }
 	var chi []*big.Int
-	if prgOK && m <= 120 {
+	if prgOK && len(ob.chi) == m {
+		o.class += "+hooks"
+		// the challenge itself, from the sender's accessor (no size limit)
+		for k := range ob.chi {
+			chi = append(chi, new(big.Int).SetBytes(ob.chi[k][:]))
+		}
+	} else if prgOK && m <= 120 {
+		// trees without the accessor: recover it from the honest response by linear algebra
 		A := make([][]*big.Int, 0, softspoken.Kappa+1)
 		rhs := make([]*big.Int, 0, softspoken.Kappa+1)
 		for i := 0; i < min(softspoken.Kappa, m+8); i++ {
@@ -743,7 +776,7 @@ func runExt(d desc) outcome {
 	}
 	if chi == nil {
 		if prgOK {
-			o.notes = append(o.notes, "challenge not recoverable (singular system) for "+d.text())
+			o.notes = append(o.notes, "challenge not available (tree without the VerifChallenge accessor and m > 120, or singular system) for "+d.text()+": tie restricted to recorded columns")
 		}
 		chi = make([]*big.Int, m)
 		for k := range chi {
@@ -893,6 +926,16 @@ func genCases(seed int64, tier string, search bool) []desc {
 			}
 		}
 	}
+	// sizes with m = xi*L/128 > 120 challenge blocks (the challenge comes from the tree's VerifChallenge accessor;
+	// without it these cases only tie the hashed columns)
+	// (thorough only: the list-based model needs ~10 s per such case)
+	if thorough {
+		add("ext", "xi", "2048", "L", "8", "delta", "rand", "x", "rand", "src", "synth", "tamper", "sample")
+		add("ext", "xi", "4096", "L", "4", "delta", "rand", "x", "alt", "src", "synth", "tamper", "sample")
+		add("ext", "xi", "2048", "L", "12", "delta", "one", "x", "rand", "src", "synth", "tamper", "sample")
+		add("ext", "xi", "4096", "L", "8", "delta", "rand", "x", "rand", "src", "synth", "tamper", "all")
+		add("ext", "xi", "1024", "L", "32", "delta", "zero", "x", "rand", "src", "synth", "tamper", "sample")
+	}
 	if thorough {
 		for _, dsh := range []string{"rand", "zero", "one"} {
 			add("ext", "xi", "256", "L", "2", "delta", dsh, "x", "rand", "src", "synth", "tamper", "bytes")
@@ -907,10 +950,15 @@ func genCases(seed int64, tier string, search bool) []desc {
 			add("vsot", "curve", c, "xi", "128", "L", "1", "x", xs)
 			add("ecb", "curve", c, "xi", "128", "L", "1", "x", xs)
 		}
-		for _, L := range []int{2, 3} {
-			add("vsot", "curve", c, "xi", "8", "L", strconv.Itoa(L), "x", "rand")
-			add("ecb", "curve", c, "xi", "16", "L", strconv.Itoa(L), "x", "rand")
+		// block lengths 1..4 with mixed choice vectors (index idx = i*L + j must be used consistently on both sides)
+		for _, L := range []int{1, 2, 3, 4} {
+			for _, xs := range []string{"rand", "alt"} {
+				add("vsot", "curve", c, "xi", "16", "L", strconv.Itoa(L), "x", xs)
+				add("ecb", "curve", c, "xi", "16", "L", strconv.Itoa(L), "x", xs)
+			}
 		}
+		add("vsot", "curve", c, "xi", "8", "L", "3", "x", "one")
+		add("ecb", "curve", c, "xi", "8", "L", "4", "x", "one")
 		if thorough {
 			for _, xs := range shapes {
 				add("vsot", "curve", c, "xi", "256", "L", "2", "x", xs)
